@@ -37,11 +37,13 @@ def parseHandle : List String → Option Handle
   | ["xf", "Y"] => some (.xf .y)
   | ["xf", "nosuch"] => some (.xf .z)
   | ["xs", "um"] => some .xs
+  | ["i2", "A"] => some (.i2 false)
+  | ["i2", "B"] => some (.i2 true)
   | ["var", "v"] => some (.vr false)
   | ["uvar", "w"] => some (.vr true)
   | _ => none
 
-def isVarHandle : Handle → Bool | .vr _ => true | _ => false
+def isVarHandle : Handle → Bool | .vr _ => true | .i2 _ => true | _ => false       -- handles that are never kept
 
 def parseOp : List String → Option Op
   | ["pkg", p] => (parsePkg p).map .pkg
@@ -69,7 +71,7 @@ def splitOps (ts : List String) : List (List String) :=
   r.1 ++ [r.2]
 
 def showRes : Res → String
-  | .o => "o" | .k i => s!"k{i}" | .v n => s!"v{n}" | .p => "p" | .idx => "P:index-out-of-range"
+  | .o => "o" | .k i => s!"k{i}" | .v n => s!"v{n}" | .p => "p" | .idx => "P:index-out-of-range" | .n => "n"
 
 def showBeh (rs : List Res) : String :=
   let rec go : List Res → List String
